@@ -13,6 +13,7 @@ from fractions import Fraction
 import numpy as np
 
 import lib
+import translate_C20
 from lib import qlit, zlit, coq_list, coq_bool
 
 IMPORTS = ("From Coq Require Import List ZArith QArith Bool.\nImport ListNotations.\n"
@@ -198,7 +199,6 @@ class Spies:
     """Pass-through recorders on the drawing / layout calls of causationentropy.core.plotting."""
 
     def __enter__(self):
-        import matplotlib.pyplot as plt
         import networkx as nx
         from causationentropy.core import plotting
         self.P, self.nx = plotting, nx
@@ -206,26 +206,30 @@ class Spies:
         self.saved = {"nodes": nx.draw_networkx_nodes, "edges": nx.draw_networkx_edges,
                       "opt": plotting.optimize_circular_order, "circ": plotting._circular_positions}
 
-        def nodes(G, pos, *a, **kw):
-            self.node_pos.append({n: np.array(p, dtype=float).copy() for n, p in pos.items()})
-            return self.saved["nodes"](G, pos, *a, **kw)
+        def nodes(*a, **kw):
+            pos = kw["pos"] if "pos" in kw else (a[1] if len(a) > 1 else None)
+            if isinstance(pos, dict):
+                self.node_pos.append({n: np.array(p, dtype=float).copy() for n, p in pos.items()})
+            return self.saved["nodes"](*a, **kw)
 
-        def edges(G, pos, *a, **kw):
+        def edges(*a, **kw):
             self.draws.append({"edgelist": list(kw.get("edgelist", [])),
                                "width": np.array(kw.get("width", []), dtype=float).reshape(-1).tolist(),
                                "colors": np.array(kw.get("edge_color", []), dtype=float).reshape(-1, 4).tolist()
                                if np.ndim(kw.get("edge_color", [])) == 2 else None,
                                "style": kw.get("connectionstyle")})
-            return self.saved["edges"](G, pos, *a, **kw)
+            return self.saved["edges"](*a, **kw)
 
         def opt(*a, **kw):
             r = self.saved["opt"](*a, **kw)
             self.orders.append(list(r))
             return r
 
-        def circ(order, *a, **kw):
-            r = self.saved["circ"](order, *a, **kw)
-            self.pos_calls.append((list(order), [(n, float(p[0]), float(p[1])) for n, p in r.items()]))
+        def circ(*a, **kw):
+            r = self.saved["circ"](*a, **kw)
+            order = kw["order"] if "order" in kw else (a[0] if a else None)
+            if order is not None and isinstance(r, dict):
+                self.pos_calls.append((list(order), [(n, float(p[0]), float(p[1])) for n, p in r.items()]))
             return r
         nx.draw_networkx_nodes, nx.draw_networkx_edges = nodes, edges
         plotting.optimize_circular_order, plotting._circular_positions = opt, circ
@@ -254,7 +258,6 @@ def legend_info(ax, palette):
 
 def plot_once(G, o, tmpdir, tag):
     """Run plot_causal_network under the spies; returns (failure or None, observations)."""
-    import random
     import matplotlib.pyplot as plt
     from matplotlib.axes import Axes
     from matplotlib.figure import Figure
@@ -428,17 +431,42 @@ def draw_case(G, o, obs):
 
 # ------------------------------------------------------------------------------------------------
 def run(chk):
-    import random
+    import threading
+    import time
+    quick = chk.tier == "quick"
+    # worker processes are forked BEFORE the thread below exists; the theorem re-check (coqc subprocesses only)
+    # then runs concurrently with the generation / plotting work and is joined before the first correspondence
+    n_workers = 10 if quick else 15
+    pool = ProcessPoolExecutor(max_workers=n_workers, mp_context=multiprocessing.get_context("fork"))
+    list(pool.map(abs, range(n_workers)))
+    bg = {}
+
+    def recheck():
+        try:
+            t1 = time.time()
+            chk.theorems()
+            chk.stats["wall.theorems_s"] = round(time.time() - t1, 1)
+            lib.translator_lemma(chk, "layout_facts", translate_C20.layout_facts, translate_C20.coq_layout_facts, "")
+        except BaseException as e:      # noqa: BLE001 -- re-raised in the main thread
+            bg["error"] = e
+    th = threading.Thread(target=recheck)
+    th.start()
+    try:
+        _run(chk, pool, th, bg)
+    finally:
+        th.join()
+        pool.shutdown(wait=False, cancel_futures=True)
+
+
+def _run(chk, pool, th, bg):
+    import time
     import networkx as nx
     from causationentropy.core import plotting
     rng = np.random.default_rng(chk.seed)
     quick = chk.tier == "quick"
-    import time
-    t0 = time.time()
-    chk.theorems()
-    chk.stats["wall.theorems_s"] = round(time.time() - t0, 1)
     chk.trusted += [
         "Coq 8.16.1 kernel + vm_compute; Coq-Interval (BigZ floats, 80 bits) for the cos/sin enclosures",
+        "harness/translate_C20.py (anchors: _circular_positions, max_cmi guard, palette index, moves of optimize_circular_order; fail-closed)",
         "harness/props/C20.py: pass-through spies on networkx's community finder, plotting._objective, "
         "plotting._circular_positions, plotting.optimize_circular_order, nx.draw_networkx_nodes / draw_networkx_edges; "
         "the legend of the returned axes is read to observe the palette index",
@@ -450,8 +478,8 @@ def run(chk):
                         "communities returned by the community finder contain only nodes of the graph"]
 
     # ------------------------------------------------------------------ graphs
-    n_graphs = 60 if quick else 1500
-    n_opts = 2 if quick else 4
+    n_graphs = 60 if quick else 900
+    n_opts = 2 if quick else 3
     forced = ["self_loops_only", "no_edges", "zero_group", "all_zero", "parallel", "p_extremes", "dense", "one_edge"]
     graphs = []
     for gi in range(n_graphs):
@@ -523,9 +551,6 @@ def run(chk):
             chk.case(key=("seed", gi, var, tuple(map(tuple, sd[-1]["communities"]))), nontrivial=len(nodes) > 2,
                      sample=sd[-1] if len(chk.samples) < 1 and var == "overlap" else None)
             chk.count(f"seed_order.oracle.{var}")
-    lib.correspond(chk, "community_seed_order_vs_model", IMPORTS, "list (Z * Z) * list (list Z) * list Z * list Z", "check_seed_case",
-                   sc, sp_, lambda i: sd[i], shard=100, jobs=8)
-
     chk.stats["wall.seed_order_s"] = round(time.time() - t0, 1)
     # ------------------------------------------------------------------ 2. optimiser
     t0 = time.time()
@@ -542,10 +567,7 @@ def run(chk):
             explicit = rng.random() < 0.3
             start = [nodes[i] for i in rng.permutation(len(nodes))] if explicit else None
             ojobs.append((gi, G, max_iters, block, seed, start, int(rng.integers(0, 10 ** 6))))
-    ctx = multiprocessing.get_context("fork")
-    n_workers = 10 if quick else 15
-    with ProcessPoolExecutor(max_workers=n_workers, mp_context=ctx) as ex:
-        ores = list(ex.map(opt_worker, ojobs, chunksize=4 if quick else 16))
+    ores = list(pool.map(opt_worker, ojobs, chunksize=4 if quick else 16))
     for (gi, G, max_iters, block, seed, start, _), (out, out2, calls, err) in zip(ojobs, ores):
         nodes = list(G.nodes())
         ix = {repr(n): i for i, n in enumerate(nodes)}
@@ -586,12 +608,12 @@ def run(chk):
         opts = [gen_options(rng, k) for k in range(n_opts)]
         jobs.append((gi, G, opts, gi % 3 == 0))
     results = {}
-    with ProcessPoolExecutor(max_workers=n_workers, mp_context=ctx) as ex:
-        for gi, out in ex.map(plot_worker, jobs, chunksize=1 if quick else 4):
-            results[gi] = out
+    for gi, out in pool.map(plot_worker, jobs, chunksize=1 if quick else 4):
+        results[gi] = out
     chk.stats["wall.plots_s"] = round(time.time() - t0, 1)
     dc, dp, dd = [], [], []
     pc, pp, pd_ = [], [], []
+    uc, up, ud = [], [], []
     for gi, G, opts, repro in jobs:
         shape = graphs[gi][1]
         nodes = list(G.nodes())
@@ -630,21 +652,29 @@ def run(chk):
             # the order the plot used: permutation acceptor (untraced) + positions tie
             if obs["order"] is not None:
                 known = all(repr(x) in ix for x in obs["order"])
-                oc.append(f"(true, {idx_list(nodes, ix)}, false, [], {idx_list(obs['order'], ix) if known else '[(-1)]'}, {idx_list(nodes, ix)})")
-                op.append(None if Counter(map(repr, obs["order"])) == Counter(map(repr, nodes)) else
+                uc.append(f"(true, {idx_list(nodes, ix)}, false, [], {idx_list(obs['order'], ix) if known else '[(-1)]'}, {idx_list(nodes, ix)})")
+                up.append(None if Counter(map(repr, obs["order"])) == Counter(map(repr, nodes)) else
                           f"the order used by plot_causal_network {obs['order']!r} is not a permutation of the nodes")
-                od.append({"call": "optimize_circular_order via plot_causal_network", "rng": o["seed"], "nodes": [repr(n) for n in nodes],
+                ud.append({"call": "optimize_circular_order via plot_causal_network", "rng": o["seed"], "nodes": [repr(n) for n in nodes],
                            "returned": [repr(x) for x in obs["order"]]})
                 chk.count("optimizer.orders_from_plots")
-            if obs["pos_call"] is not None and k == 0 and (not quick or gi % 2 == 0):
+            if obs["pos_call"] is not None and k == 0 and gi % (2 if quick else 3) == 0:
                 order, items = obs["pos_call"]
                 if all(repr(x) in ix for x in order) and all(repr(n) in ix for n, _, _ in items):
                     pc.append(pos_term(order, items, ix))
                     pp.append(None)
                     pd_.append({"call": "_circular_positions (inside plot_causal_network)", "order": [repr(x) for x in order],
                                 "returned": [(repr(n), x, y) for n, x, y in items]})
+    th.join()
+    if "error" in bg:
+        raise bg["error"]
+    lib.correspond(chk, "community_seed_order_vs_model", IMPORTS, "list (Z * Z) * list (list Z) * list Z * list Z", "check_seed_case",
+                   sc, sp_, lambda i: sd[i], shard=100, jobs=8)
+
     lib.correspond(chk, "optimizer_vs_model", IMPORTS, "bool * list Z * bool * list (list Z) * list Z * list Z", "check_opt_case",
                    oc, op, lambda i: od[i], shard=40 if quick else 8, jobs=10 if quick else 15, timeout=1500)
+    lib.correspond(chk, "orders_used_by_plots_are_permutations", IMPORTS, "bool * list Z * bool * list (list Z) * list Z * list Z",
+                   "check_opt_case", uc, up, lambda i: ud[i], shard=400, jobs=8)
     lib.correspond(chk, "drawing_vs_model", IMPORTS,
                    "Q * Q * Q * bool * list edge * list drawn * nat * list nat", f"check_draw_case {qlit(TOL_DRAW)}",
                    dc, dp, lambda i: dd[i], shard=40, jobs=10)
@@ -676,7 +706,8 @@ def run(chk):
         "huge, slightly negative, uniform, numpy scalars}; p in {0, 1, threshold, uniform} or missing. Each graph is drawn with "
         f"{n_opts} option sets (defaults-like + random booleans over {', '.join(BOOL_OPTS)}; standard / colour-blind / custom palettes of "
         "1-3 maps; several layout seeds; some saved to a file). PREDICATE on the real plot_causal_network under Agg: no exception, "
-        "(Figure, Axes) returned, nodes/edges/attributes equal to a deep copy taken before, positions handed to the drawing call "
+        "(Figure, Axes) returned, nodes/edges/attributes equal to a deep copy taken before, finite widths / colours handed to the "
+        "renderer for every lag group, positions handed to the drawing call "
         "= the graph's nodes exactly once on the N equally spaced unit-circle points (1e-12), and for a third of the graphs a second "
         "call with the same layout seed (global random state perturbed in between) places the nodes identically. TIES inside Coq: "
         "the community seed order against the model for the real community finder and for injected oracles (overlapping, incomplete, "
